@@ -87,12 +87,30 @@ func encoderStep(cur ssa.Value, varintFns map[*types.Func]bool) (next ssa.Value,
 		return nil, nil, false, fmt.Errorf("buffer value %s has no uses", R(cur))
 	}
 	var consumers []ssa.Instruction
+	// re-allocated copies of the buffer: make([]T, len(cur), ...) filled by copy(_, cur) hold the same bytes
+	copies := map[ssa.Value]bool{}
 	for _, r := range *refs {
 		switch x := r.(type) {
 		case *ssa.DebugRef:
 		case *ssa.Return:
 			consumers = append(consumers, r)
+		case *ssa.Phi:
+			consumers = append(consumers, r)
 		case *ssa.Call:
+			if b, ok := x.Common().Value.(*ssa.Builtin); ok && b.Name() == "copy" && len(x.Common().Args) == 2 && x.Common().Args[1] == cur {
+				if mk, isMk := x.Common().Args[0].(*ssa.MakeSlice); isMk {
+					if lc, isCall := mk.Len.(*ssa.Call); isCall {
+						if lb, isB := lc.Common().Value.(*ssa.Builtin); isB && lb.Name() == "len" && lc.Common().Args[0] == cur {
+							copies[mk] = true
+							continue
+						}
+					}
+				}
+				return nil, nil, false, fmt.Errorf("buffer copied by %s", r.String())
+			}
+			if b, ok := x.Common().Value.(*ssa.Builtin); ok && (b.Name() == "len" || b.Name() == "cap") {
+				continue
+			}
 			if len(x.Common().Args) > 0 && x.Common().Args[0] == cur {
 				consumers = append(consumers, r)
 			} else {
@@ -112,6 +130,14 @@ func encoderStep(cur ssa.Value, varintFns map[*types.Func]bool) (next ssa.Value,
 	switch x := consumers[0].(type) {
 	case *ssa.Return:
 		return nil, nil, true, nil
+	case *ssa.Phi:
+		// the buffer or its re-allocated copy: the same bytes either way
+		for _, e := range x.Edges {
+			if e != cur && !copies[e] {
+				return nil, nil, false, fmt.Errorf("buffer merged with %s", R(e))
+			}
+		}
+		return x, nil, false, nil
 	case *ssa.Call:
 		cc := x.Common()
 		if b, ok := cc.Value.(*ssa.Builtin); ok && b.Name() == "append" {
